@@ -240,6 +240,9 @@ def oracle_c03(sc, res):
                     v.append(dict(kind='announcement-fields', got=m, expected=dict(size=len(data), n=n, pgn=pgn, limit=min(sc['max_cmdt'], n))))
                 if m['kind'] == 'BAM' and e[6][4] != 0xFF:
                     v.append(dict(kind='bam-reserved-byte', got=e[6][4]))
+                if prio_ != sc['prio']:
+                    # the announcement is what carries the message's priority to the receivers (identifier field)
+                    v.append(dict(kind='announcement-priority', got=prio_, expected=sc['prio']))
             if fd and pf == 0x4D and (e[6][0] & 0xF) in (0, 4, 2) and (pg & 0xFF) in (PEER_ADDR, 255):
                 d = e[6]
                 size = d[1] | (d[2] << 8) | (d[3] << 16)
@@ -247,6 +250,8 @@ def oracle_c03(sc, res):
                 pg2 = d[9] | (d[10] << 8) | (d[11] << 16)
                 if size != len(data) or ns != n or pg2 != pgn:
                     v.append(dict(kind='announcement-fields', got=dict(size=size, n=ns, pgn=pg2), expected=dict(size=len(data), n=n, pgn=pgn)))
+                if (d[0] & 0xF) in (0, 4) and prio_ != sc['prio']:      # RTS, BAM
+                    v.append(dict(kind='announcement-priority', got=prio_, expected=sc['prio']))
                 if (d[0] & 0xF) == 0 and d[7] != min(sc['max_cmdt'], n, 255):
                     v.append(dict(kind='announcement-fields', got=dict(limit=d[7]), expected=dict(limit=min(sc['max_cmdt'], n))))
         if not sc['bam'] and not fd and len(dl) == 1:
